@@ -14,6 +14,7 @@ ID = "C06"
 LEVEL = "exploration"
 QUICK_SHARDS = 4
 MIN_NONTRIVIAL = 50
+FUZZ_RUNS = 160000     # thorough tier: atheris executions (all children)
 RULE = (
     "Fully specified stereo molecule and stereo reaction recipes from "
     "weighted families: general decorated skeletons; symmetric doubles whose "
@@ -144,5 +145,5 @@ def run(ctx):
                 labs.append("achiral-with-centres" if want else "chiral")
         ctx.note(case, bool(chiral), labs)
 
-    ctx.hyp("c06", S.tapes(1500).map(gen), check, ctx.scale(6000, 250000),
+    ctx.hyp("c06", S.mapped(1500, gen), check, ctx.scale(6000, 250000),
             shrinker=shrink)
